@@ -3,6 +3,7 @@
 import ast
 
 from ..absint import NONE, NOTNONE, TOP, TRUE, DefaultDomain, Interp, Result, State, exc, val
+from ..objects import ObjectDomain
 from ..alias import Aliases
 from ..astutil import FUNC_TYPES, attr_chain, dotted, norm, walk_shallow
 from ..loader import AnalysisError
@@ -29,250 +30,113 @@ DOUBLES = "testtools.testresult.doubles"
 METHODS = ["startTestRun", "startTest", "stopTest", "tags", "current_tags"]
 
 
-def ctx_val(depth, root="R"):
-    return ("ctx", min(depth, 2), root)
+A_TAG, B_TAG, C_TAG = ("const", "run-tag"), ("const", "test-tag"), ("const", "other-tag")
+TEST = ("wobj", "test")
 
 
-def normalise_root(st):
-    """Name the current chain's root 'R' (identity of the run-level context)."""
-    v = st.get("self._tags", None)
-    if isinstance(v, tuple) and v and v[0] == "ctx":
-        return st.set("self._tags", ("ctx", v[1], "R"))
-    return st
+def tagset(*els):
+    return ("set", ("copy", ("tuple",) + els))
 
 
-class TagDomain(DefaultDomain):
-    def __init__(self, classes, cls):
-        self.classes = classes
-        self.cls = cls
+def _show(s):
+    return "{" + ", ".join(sorted(s)) + "}"
 
-    def truth(self, v):
-        if isinstance(v, tuple) and v and v[0] in ("ctx", "ctx-deep"):
-            return "T"
-        return super().truth(v)
 
-    def is_none(self, v):
-        if isinstance(v, tuple) and v and v[0] in ("ctx", "ctx-deep"):
-            return "F"
-        return super().is_none(v)
+# (what is decided, the calls made on a freshly constructed result -- ("current_tags",) observes, the tags expected at each observation)
+SCENARIOS = [
+    ("run-level tags are visible inside a test; what the test changes is gone after it",
+     [("tags", tagset(A_TAG), tagset()), ("current_tags",), ("startTest", TEST), ("current_tags",), ("tags", tagset(B_TAG), tagset(A_TAG)), ("current_tags",), ("stopTest", TEST), ("current_tags",)],
+     [{"run-tag"}, {"run-tag"}, {"test-tag"}, {"run-tag"}]),
+    ("a stopTest without startTest (unittest 3.12.1 emits it for skipped tests) leaves the run level in place",
+     [("tags", tagset(A_TAG), tagset()), ("stopTest", TEST), ("current_tags",), ("tags", tagset(B_TAG), tagset()), ("current_tags",), ("startTest", TEST), ("stopTest", TEST), ("current_tags",)],
+     [{"run-tag"}, {"run-tag", "test-tag"}, {"run-tag", "test-tag"}]),
+    ("every test starts from the run-level tags, not from what the previous test left",
+     [("tags", tagset(A_TAG), tagset()), ("startTest", TEST), ("tags", tagset(B_TAG), tagset()), ("stopTest", TEST), ("startTest", TEST), ("current_tags",), ("tags", tagset(C_TAG), tagset()),
+      ("current_tags",), ("stopTest", TEST), ("current_tags",)],
+     [{"run-tag"}, {"run-tag", "other-tag"}, {"run-tag"}]),
+    ("run-level changes made between tests persist",
+     [("startTest", TEST), ("stopTest", TEST), ("tags", tagset(A_TAG, B_TAG), tagset()), ("tags", tagset(), tagset(B_TAG)), ("current_tags",), ("startTest", TEST), ("current_tags",), ("stopTest", TEST)],
+     [{"run-tag"}, {"run-tag"}]),
+    ("startTestRun begins a run without tags",
+     [("tags", tagset(A_TAG), tagset()), ("startTestRun",), ("current_tags",), ("startTest", TEST), ("current_tags",), ("stopTest", TEST)],
+     [set(), set()]),
+]
 
-    # The context is followed by value: through self._tags, through a local holding it, through `.parent`.
-    def _base(self, chain, st, fr):
-        """-> (value of the longest context-valued prefix of ``chain``, remaining names) or None."""
-        if len(chain) >= 2 and chain[0] == "self" and chain[1] == "_tags":
-            return st.get("self._tags", "Unset"), chain[2:]
-        if chain and chain[0] != "self":
-            key = fr.local(chain[0])
-            if st.has(key):
-                v = st.get(key)
-                if (isinstance(v, tuple) and v and v[0] in ("ctx", "ctx-deep")) or v in (NONE, "Unset"):
-                    return v, chain[1:]
-        return None
+
+class TagScopeDomain(ObjectDomain):
+    """The result object and its TagContext chain run as written (contexts are real instances of testtools.tags.TagContext);
+    whatever the result decorates / forwards to is a symbolic object that accepts every call."""
+
+    def __init__(self, classes):
+        super().__init__(classes, attrs={"self": ("self",)}, oracle=self._oracle, lacks={("decorated", "current_tags"), ("decorated", "tags"), ("decorated", "failfast")}, log_cap=40,
+                         results={"utc": [("sym", "utc")]})
 
     @staticmethod
-    def _parent_of(cur):
-        if cur[0] == "ctx-deep":
-            return ("ctx-deep",)
-        if cur[1] == 0:
-            return NONE  # the run-level context has no parent
-        if cur[1] == 1:
-            return ctx_val(0, cur[2])
-        return ("ctx-deep",)
-
-    def load_attr_multi(self, chain, st, fr):
-        b = self._base(chain, st, fr)
-        if b is None:
-            return None
-        cur, rest = b
-        if not rest:
-            return [val(cur, st)]
-        for i, name in enumerate(rest):
-            if not (isinstance(cur, tuple) and cur and cur[0] in ("ctx", "ctx-deep")):
-                what = ".".join(chain[:len(chain) - len(rest) + i])
-                return [exc(("AttributeError", f"{what} is {cur} in {fr.name}"), st.set("ev.deref", f"{fr.name}: {what}.{name} with {what} = {cur}"))]
-            if name == "parent":
-                cur = self._parent_of(cur)
-            else:
-                return [val(TOP, st)]
-        return [val(cur, st)]
-
-    def load_attr(self, chain, st, fr):
+    def _oracle(n, pos, kw):
+        if n.startswith(("decorated.", "test.", "<")):
+            return [("val", NONE)]
         return None
 
-    def call(self, interp, call, st, fr):
-        d = dotted(call.func)
-        ch = attr_chain(call.func)
-        if d == "TagContext":
-            out = []
-            for r in interp.eval_list(list(call.args), st, fr):
+
+def run_scenarios(ctx, cls, ctor_args):
+    """-> list of (scenario text, problems, number of paths)."""
+    from ..absint import Frame, unbox_deep
+    dom = TagScopeDomain(ctx.classes)
+    dom.root_class = cls
+    out = []
+    for text, calls, expected in SCENARIOS:
+        it = Interp(dom, max_depth=16)
+        it.round_cache = {}
+        holder = ast.parse("def _using_the_result():\n    pass").body[0]
+        holder._module, holder._parent, holder._class = cls.node._module, cls.node._module.tree, None
+        fr = Frame(holder, 0, cls, name="<a client of the result>", is_method=False)
+        runs = [((), State())]
+        problems = set()
+        history = ["<constructed>"]
+        init = dom._method(cls, "__init__")
+        if init is not None:
+            runs = []
+            for r in dom.apply(it, ("method", "__init__"), list(ctor_args), [], State(), fr):
                 if r.kind == "exc":
-                    out.append(r)
-                    continue
-                fresh = "fresh@" + fr.name
-                if not r.value:
-                    out.append(val(ctx_val(0, fresh), r.state))
+                    problems.add(f"the constructor raises {r.value!r}")
                 else:
-                    p = r.value[0]
-                    if isinstance(p, tuple) and p[0] == "ctx":
-                        out.append(val(ctx_val(p[1] + 1, p[2]), r.state))
-                    elif p == NONE:
-                        out.append(val(ctx_val(0, fresh), r.state.set("ev.root_replaced", 1)))
-                    else:
-                        out.append(val(ctx_val(0, fresh), r.state.set("ev.bad_parent", repr(p))))
-            return out
-        b = self._base(ch[:-1], st, fr) if ch and len(ch) >= 2 else None
-        if b is not None and (b[1] or ch[0] != "self" or len(ch) == 3):
-            # a method of the context reached through self._tags / a local / .parent
-            out = []
-            for r0 in self.load_attr_multi(ch[:-1], st, fr):
-                if r0.kind == "exc":
-                    out.append(r0)
-                    continue
-                cur = r0.value
-                for r in interp.eval_list(list(call.args), r0.state, fr):
+                    runs.append(((), r.state))
+        from ..objects import is_inst
+        if runs and not all(is_inst(st_.get("self._tags", None)) for _, st_ in runs):
+            # a result whose constructor does not make the run-level context yet: its life begins with startTestRun
+            calls = [("startTestRun",)] + list(calls)
+        for call in calls:
+            history.append(call[0])
+            nxt = []
+            for seen, st in runs:
+                if call[0] == "current_tags":
+                    results = dom._root_value_attr(it, "current_tags", st, fr)
+                else:
+                    results = dom.apply(it, ("method", call[0]), list(call[1:]), [], st, fr)
+                for r in results:
                     if r.kind == "exc":
-                        out.append(r)
-                    elif isinstance(cur, tuple) and cur and cur[0] in ("ctx", "ctx-deep"):
-                        out.append(val(TOP, r.state))
-                    else:
-                        what = ".".join(ch[:-1])
-                        out.append(exc(("AttributeError", f"{what} is {cur} in {fr.name}"), r.state.set("ev.deref", f"{fr.name}: {what}.{ch[-1]}() with {what} = {cur}")))
-            return out
-        if ch and ch[0] in ("self", "super()") and len(ch) == 2 and fr.receiver is not None:
-            if ch[0] == "self":
-                owner, f = self.classes.resolve_method(fr.receiver, ch[1])
-            else:
-                here = None
-                for k in self.classes.mro(fr.receiver):
-                    if getattr(fr.func, "_class", None) is k.node:
-                        here = k
-                owner, f = self.classes.resolve_method(fr.receiver, ch[1], after=here) if here else (None, None)
-            if isinstance(f, FUNC_TYPES) and owner is not None and not owner.external and ch[1] in ("startTestRun", "startTest", "stopTest", "tags", "__init__"):
-                params = [p.arg for p in f.args.args][1:]
-                out = []
-                for r in interp.eval_list(list(call.args), st, fr):
-                    if r.kind == "exc":
-                        out.append(r)
+                        problems.add(f"after the calls [{' ; '.join(history[:-1])}] {call[0]} raises {r.value!r}")
                         continue
-                    argvals = {params[i]: v for i, v in enumerate(r.value) if i < len(params)}
-                    out.extend(interp.inline(f, argvals, r.state, fr, receiver=fr.receiver))
-                return out
-        if d and d.endswith(".startTestRun") and ch and ch[0] in ("TestResult",) and fr.receiver is not None:
-            # TestResult.startTestRun(self) in __init__
-            ci = self.classes.get(REAL, "TestResult")
-            f = ci.own_method("startTestRun")
-            return interp.inline(f, {}, st, fr, receiver=fr.receiver)
-        # everything else is opaque and total here
-        out = []
-        for r in interp.eval_list([a.value if isinstance(a, ast.Starred) else a for a in call.args] + [k.value for k in call.keywords], st, fr):
-            out.append(r if r.kind == "exc" else val(TOP, r.state))
-        return out
-
-    def store_attr(self, key, value, st, fr):
-        if key == "self._tags":
-            return st.set(key, value)
-        if key in ("self._started",):
-            return st.set(key, value)
-        return st  # other attributes are irrelevant to the typestate
-
-    def raised_value(self, stmt, value, st, fr):
-        return ("raised", norm(stmt.exc)[:30])
-
-
-def project(st):
-    return (st.get("self._tags", "Unset"), st.get("self._started", "-"))
-
-
-def explore_class(ctx, cls, init_via):
-    """All method histories over the abstract tag state; returns (transitions, problems)."""
-    classes = ctx.classes
-    dom = TagDomain(classes, cls)
-    it = Interp(dom, max_depth=6)
-    # initial state: run the constructor abstractly
-    start = set()
-    init_owner, init_f = classes.resolve_method(cls, "__init__")
-    if isinstance(init_f, FUNC_TYPES) and init_owner is not None and not init_owner.external:
-        for r in it.analyze(init_f, {}, State(), receiver=cls, name="__init__"):
-            if r.kind == "val":
-                start.add(normalise_root(State([(k, v) for k, v in r.state.items if k in ("self._tags", "self._started")])))
-    else:
-        start.add(State())
-    # classes whose constructor does not create the context start after startTestRun
-    if any(not s.has("self._tags") for s in start):
-        owner, f = classes.resolve_method(cls, "startTestRun")
-        nxt = set()
-        for s in start:
-            for r in Interp(dom, max_depth=6).analyze(f, {}, s, receiver=cls, name="startTestRun"):
-                if r.kind == "val":
-                    nxt.add(normalise_root(State([(k, v) for k, v in r.state.items if k in ("self._tags", "self._started")])))
-        start = nxt
-        prefix = ("startTestRun",)
-    else:
-        prefix = ()
-    transitions = {}
-    problems = []
-    seen = set()
-    work = [(s, prefix, False) for s in start]
-    while work:
-        s, hist, tainted = work.pop()
-        key = project(s)
-        if (key, tainted) in seen:
-            continue
-        seen.add((key, tainted))
-        for m in METHODS:
-            cur = key[0]
-            # well-formed histories do not nest tests
-            if m == "startTest" and isinstance(cur, tuple) and cur[0] == "ctx" and cur[1] >= 1:
-                continue
-
-            def depth(v):
-                return v[1] if isinstance(v, tuple) and v and v[0] == "ctx" else None
-
-            def root(v):
-                return v[2] if isinstance(v, tuple) and v and v[0] == "ctx" else None
-            owner, f = classes.resolve_method(cls, m)
-            if not isinstance(f, FUNC_TYPES):
-                continue
-            it2 = Interp(dom, max_depth=6)
-            res = it2.analyze(f, {}, s, receiver=cls, name=m)
-            ctx.stats["states"] += it2.steps
-            for fn in it2.functions:
-                ctx.analysed(fn)
-            for r in res:
-                s2 = State([(k, v) for k, v in r.state.items if k in ("self._tags", "self._started")])
-                deref = r.state.get("ev.deref", None)
-                transitions.setdefault((key, m), set()).add((project(s2), "raise" if r.kind == "exc" else "ok"))
-                h2 = hist + (m,)
-                t2 = tainted
-                before, after = key[0], project(s2)[0]
-                if m == "startTestRun" and r.kind == "val":
-                    s2 = normalise_root(s2)
-                    after = project(s2)[0]
-                if r.kind == "val" and m == "stopTest" and depth(before) == 0 and depth(after) != 0:
-                    problems.append(("pop-root", h2, f"stopTest with the run-level context current (a start-less stopTest, as unittest 3.12.1 emits for skipped "
-                                     f"tests) leaves self._tags = {after}: the run-level tags are lost"
-                                     + (" and current_tags / tags() raise AttributeError afterwards" if after == NONE else ""), f))
-                    t2 = True
-                if not tainted:
-                    # consequences of an earlier pop of the run-level context are not reported again
-                    if deref:
-                        problems.append(("deref", h2, deref, f))
-                    if r.kind == "val":
-                        if m != "startTestRun" and depth(before) is not None and depth(after) is not None and root(after) != root(before):
-                            problems.append(("new-root", h2, f"{m} replaces the run-level context by a new one ({root(after)}): run-level tags are lost", f))
-                        if m == "stopTest" and depth(before) == 1 and depth(after) != 0:
-                            problems.append(("pop", h2, f"stopTest inside a test leaves self._tags = {after} instead of the run-level context", f))
-                        if m == "startTest" and depth(before) == 0 and depth(after) != 1:
-                            problems.append(("push", h2, f"startTest at run level gives {after} instead of a child context", f))
-                        if m == "startTestRun" and depth(after) != 0:
-                            problems.append(("reset", h2, f"startTestRun leaves self._tags = {after}", f))
-                        if m in ("tags", "current_tags") and after != before:
-                            problems.append(("context-replaced", h2, f"{m} replaces the context ({before} -> {after})", f))
-                        if m in ("startTest", "stopTest", "tags", "current_tags") and r.state.get("ev.root_replaced", 0):
-                            problems.append(("new-root", h2, f"{m} builds a fresh root context from a None parent", f))
-                if r.kind == "val" and len(h2) < 9:
-                    work.append((s2, h2, t2))
-    return transitions, problems, seen
+                    if call[0] == "current_tags":
+                        els = dom._set_elements(unbox_deep(r.value, r.state))
+                        got = None if els is None or not all(isinstance(x, tuple) and x[:1] == ("const",) for x in els) else frozenset(x[1] for x in els)
+                        nxt.append((seen + (got,), r.state))
+                    else:
+                        nxt.append((seen, r.state))
+            runs = nxt
+        if not runs and not problems:
+            problems.add("no path of the scenario returns")
+        for seen, _ in runs:
+            for i, (got, want) in enumerate(zip(seen, expected)):
+                if got is None:
+                    problems.add(f"observation {i + 1}: current_tags could not be followed to a set of tags")
+                elif set(got) != want:
+                    problems.add(f"observation {i + 1} of [{' ; '.join(c[0] for c in calls)}]: current_tags is {_show(got)}, expected {_show(want)}")
+        ctx.stats["states"] += it.steps
+        for f_ in it.functions:
+            ctx.analysed(f_)
+        out.append((text, sorted(problems), max(len(runs), 1), tuple(tuple(sorted(x)) if x is not None else None for x in (runs[0][0] if runs else ()))))
+    return out
 
 
 def run(ctx):
@@ -282,48 +146,18 @@ def run(ctx):
     ctx.rule("R-TFR-TAGS", "ThreadsafeForwardingResult routes tags to the per-test buffer iff a test is open")
     ctx.rule("R-OBSERVED-TAGS", "observers see the tags current at the outcome; placeholder tags are applied and removed symmetrically")
     classes = ctx.classes
-    owners = [(REAL, "TestResult"), (REAL, "ExtendedToOriginalDecorator"), (REAL, "ExtendedToStreamDecorator"), (DOUBLES, "ExtendedTestResult")]
-    tables = {}
-    for mod, name in owners:
+    owners = [(REAL, "TestResult", []), (REAL, "ExtendedToOriginalDecorator", [("wobj", "decorated")]), (REAL, "ExtendedToStreamDecorator", [("wobj", "decorated")]), (DOUBLES, "ExtendedTestResult", [])]
+    observed = {}
+    for mod, name, ctor_args in owners:
         cls = classes.get(mod, name)
-        trans, problems, seen = explore_class(ctx, cls, None)
-        tables[name] = trans
-        reported = set()
-        for kind, hist, msg, f in problems:
-            owner_f = getattr(f, "_class", None)
-            key = (kind, f.name)
-            if key in reported:
-                continue
-            reported.add(key)
-            ctx.check("R-TAG-TYPESTATE", f"{name}: {kind} after history {' ; '.join(hist)}", f, False,
-                      f"{name}: after the calls [{' ; '.join(hist)}] {msg}", path=list(hist),
-                      construct=f"{mod}:{name}.{f.name}::{kind}")
-        for (state, m), outs in sorted(trans.items(), key=repr):
-            bad = [p for p in problems if p[1][-1] == m]
-            ctx.check("R-TAG-TYPESTATE", f"{name}: state {state[0]} --{m}--> {sorted(set(o[0][0] for o in outs), key=repr)}", cls.node,
-                      True, examined=len(outs), construct=f"{mod}:{name}::trans {state} {m}")
-        ctx.check("R-TAG-TYPESTATE", f"{name}: {len(seen)} abstract states, {len(trans)} transitions explored to closure", cls.node, len(trans) >= 5,
-                  "implausibly small state space (model broken?)", examined=len(trans), construct=f"{mod}:{name}::closure")
-    ctx.floor("R-TAG-TYPESTATE", 30, "transitions")
-
-    # ------------------------------------------------------------------ siblings
-    def normalise(t):
-        out = {}
-        for (state, m), outs in t.items():
-            if isinstance(state[0], tuple) and state[0][0] == "ctx":
-                out[(state[0], m)] = {(o[0][0], o[1]) for o in outs}
-        return out
-
-    ref_name = "TestResult"
-    ref = normalise(tables[ref_name])
-    for name in ("ExtendedToOriginalDecorator", "ExtendedToStreamDecorator", "ExtendedTestResult"):
-        other = normalise(tables[name])
-        diffs = []
-        for k in sorted(set(ref) & set(other), key=repr):
-            if k[1] in ("startTest", "stopTest", "startTestRun") and ref[k] != other[k]:
-                diffs.append(f"{k[0]} --{k[1]}--> {sorted(ref[k], key=repr)} vs {sorted(other[k], key=repr)}")
-        ctx.check("R-SIBLINGS", f"{name} agrees with {ref_name} on push / pop / reset", classes.get(REAL if name != "ExtendedTestResult" else DOUBLES, name).node,
-                  not diffs, f"{name} and {ref_name} disagree: {diffs[:3]}", construct=f"{name}::agrees-with-TestResult")
+        for text, problems, n, seen in run_scenarios(ctx, cls, ctor_args):
+            observed.setdefault(text, {})[name] = seen
+            ctx.check("R-TAG-TYPESTATE", f"{name}: {text}", cls.node, not problems, f"{name}: " + "; ".join(problems), examined=n, construct=f"{mod}:{name}::{text}")
+    ctx.floor("R-TAG-TYPESTATE", 20, "scenarios")
+    for mod, name, _ in owners[1:]:
+        diffs = [text for text, per in observed.items() if per.get(name) != per.get("TestResult")]
+        ctx.check("R-SIBLINGS", f"{name} agrees with TestResult on what current_tags shows in every scenario", classes.get(mod, name).node, not diffs,
+                  f"{name} and TestResult disagree in: {diffs[:3]}", construct=f"{name}::agrees-with-TestResult")
 
     # ------------------------------------------------------------------ TagContext copies
     # Decided on abstract runs over symbolic sets: which set object a context ends up with / hands out, and what it
@@ -352,7 +186,7 @@ def run(ctx):
         f = tcx.own_method(name)
         if not isinstance(f, FUNC_TYPES):
             raise AnalysisError(f"anchor vanished: TagContext.{name}")
-        dom = effects.EffectDomain(classes, attrs={"self": ("self",)})
+        dom = ObjectDomain(classes, attrs={"self": ("self",)})
         return f, effects.run(ctx, dom, f, tcx, argv, state=State(state), depth=4)
 
     def fresh_set(v):
@@ -406,7 +240,7 @@ def run(ctx):
     conv = own_method(ctx, REAL, "ExtendedToStreamDecorator", "_convert")
     etsd = classes.get(REAL, "ExtendedToStreamDecorator")
     CUR = ("sym", "current-tags")
-    dom = effects.EffectDomain(classes, attrs={"self": ("self",), "self.current_tags": CUR, "self._started": TRUE}, track=lambda d: d == "self.status", results={"self._now": [("sym", "now")]})
+    dom = ObjectDomain(classes, attrs={"self": ("self",), "self.current_tags": CUR, "self._started": TRUE}, track=lambda d: d == "self.status", results={"self._now": [("sym", "now")]})
     res = effects.run(ctx, dom, conv, etsd, {"test": ("wobj", "test"), "err": NONE, "details": NONE, "status": ("const", "success"), "reason": NONE}, state=State(), depth=3)
     problems = set()
     for r in res:
